@@ -15,6 +15,8 @@ from harness import core
 ALL = 2 ** 32 - 1
 FLAGS = {"ack", "fin", "psh", "rst", "syn", "urg"}
 LOGS = {"log", "log-input"}
+OPT_KV = {"dscp", "precedence", "tos", "time-range"}
+OPT_WORD = {"fragments"}
 OPERATORS = {"eq", "neq", "gt", "lt", "range"}
 
 
@@ -130,7 +132,7 @@ def read_ace(text, platform="ios"):
         for pt in (sport, dport):
             if pt and pt[0] in ("eq", "neq") and len(pt[1]) != 1:
                 raise ReadError("several eq/neq ports are not valid on this platform")
-    flags, logs = [], []
+    flags, logs, opts = [], [], []
     while p.peek() is not None:
         t = p.next()
         if t in FLAGS:
@@ -139,10 +141,16 @@ def read_ace(text, platform="ios"):
             flags.append(t)
         elif t in LOGS:
             logs.append(t)
+        elif t in OPT_KV:                       # keyword + value: the pair stays together, in this order
+            if p.peek() is None:
+                raise ReadError(f"option {t!r} without a value")
+            opts.append((t, p.next()))
+        elif t in OPT_WORD:
+            opts.append((t,))
         else:
             raise ReadError(f"unexpected token {t!r}")
     return {"seq": seq, "permit": act == "permit", "proto": proto, "src": src, "sport": sport, "dst": dst,
-            "dport": dport, "flags": flags, "logs": logs}
+            "dport": dport, "flags": flags, "logs": logs, "opts": opts}
 
 
 def port_set(pt):
@@ -175,4 +183,6 @@ def same_packets(r, a):
             return f"{f} port set"
     if set(r["flags"]) != set(a["flags"]):
         return "flags"
+    if [tuple(x) for x in r.get("opts", [])] != [tuple(x) for x in a.get("opts", [])]:
+        return "options (keyword/value pairs)"
     return None
